@@ -315,6 +315,33 @@ class Engine:
         self._entry_held = {q: (v if v is not None else frozenset()) for q, v in eh.items()}
         return self._entry_held
 
+    def entry_may_held(self):
+        """qualname -> tokens that MAY be held when the function is entered
+        (union over synchronous call chains; used for lock-order edges)."""
+        if getattr(self, "_entry_may", None) is not None:
+            return self._entry_may
+        funcs = self.prog.funcs
+        mh = {q: frozenset() for q in funcs}
+        changed = True
+        rounds = 0
+        while changed:
+            changed = False
+            rounds += 1
+            if rounds > 100:
+                raise AnalysisError("entry-may-held fixpoint did not converge")
+            for q, callers in self.redges().items():
+                acc = set(mh.get(q, ()))
+                for cq, k, n in callers:
+                    if k not in SYNC_KINDS or funcs[cq].module.name == "__user__":
+                        continue
+                    acc |= self.held_at_call(funcs[cq], n) | mh[cq]
+                acc = frozenset(acc)
+                if acc != mh.get(q):
+                    mh[q] = acc
+                    changed = True
+        self._entry_may = mh
+        return mh
+
     def held_full(self, func, call):
         return self.held_at_call(func, call) | self.entry_held().get(func.qualname, frozenset())
 
